@@ -31,6 +31,9 @@ ASSUMPTIONS = ['reference = importlib.machinery.PathFinder.find_spec walked comp
                'names that importlib does not find on the path but that are present in sys.modules (e.g. os.path) only require "no ImportError"']
 
 NAMES = ['a', 'b', 'c', 'json', 'os', 'xml', '_bisect', 'math']
+_TAG = [x for x in importlib.machinery.EXTENSION_SUFFIXES if x.count('.') > 1 and 'abi3' not in x]
+EXT_FILES = ['extplain.so', 'extabi.abi3.so'] + (['exttag' + _TAG[0]] if _TAG else [])
+EXT_NAMES = {f.split('.')[0] for f in EXT_FILES}
 STD_QUERIES = ['json', 'json.decoder', 'json.tool', 'json.zz', 'xml.dom', 'xml.dom.minidom', 'xml.etree.ElementTree',
                'math', '_bisect', '_json', 'os', 'os.path', 'os.zz', 'zz', 'a.b.c.d.e', 'email.mime.text', 'select']
 
@@ -60,6 +63,11 @@ def _fill(d, children, junk, top=False):
                 f.write('y = 2\n')
             _fill(pd, node, junk)
     if junk:
+        # tagged extension-module file names: pkgutil / FileFinder enumerate them by suffix without loading them.
+        # They are only used by the listing oracle (a fake .so cannot be imported, so they are never resolved).
+        for fname in EXT_FILES:
+            with open(os.path.join(d, fname), 'wb') as f:
+                f.write(b'\x7fELF fake')
         with open(os.path.join(d, 'notes.txt'), 'w') as f:
             f.write('not a module\n')
         if not top:
@@ -174,6 +182,8 @@ def problems_of(spec, base):
     for name in sorted(queries):
         if not name or name.startswith('.') or name.endswith('.') or '..' in name:
             continue
+        if name.split('.')[-1] in EXT_NAMES:
+            continue
         stats['queries'] += 1
         rk = ref_kind(ref_find(name, roots))
         sk = supp_find(project, name)
@@ -253,6 +263,8 @@ def problems_of(spec, base):
             if form.endswith('import '):
                 continue     # proposals legitimately include the module's attributes here
             for c in props:
+                if c in EXT_NAMES and spec.get('junk'):
+                    continue
                 full = pkg + '.' + c
                 if full in sys.modules or any(k.startswith(full + '.') for k in sys.modules):
                     continue
